@@ -153,7 +153,7 @@ EXPR_HOOKS.append(_h_fn_call)
 EXPR_HOOKS.append(_h_const_dict)
 EXPR_HOOKS.append(_h_param_version)
 EXPR_HOOKS.append(_h_int_literal_num)
-STMT_HOOKS.insert(0, _h_track_assign)
+STMT_HOOKS.append(_h_track_assign)
 STMT_HOOKS.append(_h_assert_tracked)
 
 # ---- the dispatch layer of utils/volumetric_object.py: volumetric objects are IMMUTABLE TERMS `Py.VObj` (a sphere = its node, a frustum = the pair
